@@ -36,15 +36,7 @@ def check(prog, rep):
             loc=loc,
         )
 
-    # ---- R13.1 mutators
-    mutators = []
-    for m in P.methods.values():
-        if m is init or m is inval:
-            continue
-        ws = [(a, n) for a, n in attr_writes(m.node, {"self"}) if a in model_attrs]
-        if ws:
-            mutators.append((m, ws))
-    rep.saw("mutators", [m.qual for m, _ in mutators])
+    # ---- R13.1 mutators (public edit API; private helpers on self are summarised and inlined)
     inval_name = inval.name if inval else None
 
     def is_inval_call(n):
@@ -53,43 +45,82 @@ def check(prog, rep):
             and n.func.attr == inval_name
         )
 
-    for m, ws in mutators:
-        def transfer(node, facts, _m=m):
+    summaries = {}
+
+    def helper_of(n):
+        if isinstance(n, ast.Call) and isinstance(n.func, ast.Attribute) and dotted(n.func.value) == "self" and n.func.attr in P.methods:
+            h = P.methods[n.func.attr]
+            if h is not inval and h is not init and h.name.startswith("_"):
+                return h
+        return None
+
+    def make_transfer():
+        def transfer(node, facts):
             f = set(facts)
-            if isinstance(node, (ast.stmt, ast.expr)):
+            if isinstance(node, (ast.stmt, ast.expr)) and not isinstance(node, (ast.FunctionDef, ast.Lambda, ast.ClassDef)):
                 holder = node if isinstance(node, ast.stmt) else ast.Expr(value=node)
                 if stmt_writes(holder, {"self"}, model_attrs):
                     f.discard("clean")
+                for c in ast.walk(node):
+                    h = helper_of(c)
+                    if h is not None:
+                        sm = summary(h)
+                        if sm["writes"]:
+                            f.discard("clean")
+                        if sm["ends_clean"]:
+                            f.add("clean")
                 if any(is_inval_call(c) for c in ast.walk(node)):
                     f.add("clean")
             return frozenset(f)
+        return transfer
 
-        def may_raise(node):
-            for c in ast.walk(node):
-                if isinstance(c, ast.Raise):
-                    return True
-                if isinstance(c, ast.Call) and not is_inval_call(c):
-                    # the store / in-place mutation itself (list.append ...) does not raise
-                    if isinstance(c.func, ast.Attribute) and c.func.attr in MUTATING_METHODS and isinstance(c.func.value, ast.Attribute) and dotted(c.func.value.value) == "self" and not any(isinstance(x, ast.Call) for a in c.args for x in ast.walk(a)):
-                        continue
-                    return True
-            return False
+    def may_raise(node):
+        for c in ast.walk(node):
+            if isinstance(c, ast.Raise):
+                return True
+            if isinstance(c, ast.Call) and not is_inval_call(c):
+                if isinstance(c.func, ast.Attribute) and c.func.attr in MUTATING_METHODS and isinstance(c.func.value, ast.Attribute) and dotted(c.func.value.value) == "self" and not any(isinstance(x, ast.Call) for a in c.args for x in ast.walk(a)):
+                    continue
+                return True
+        return False
 
-        exits, ma = analyze(m.node.body, transfer, frozenset({"clean"}), may_raise, implicit="before")
-        # the effect of a statement happens after its operands were evaluated: an implicit exception
-        # leaves with the facts that held before the statement.
+    def summary(h, _stack=[]):
+        if h.qual in summaries:
+            return summaries[h.qual]
+        if h.qual in _stack:
+            return {"writes": False, "ends_clean": False}
+        _stack.append(h.qual)
+        writes = bool([a for a, _n in attr_writes(h.node, {"self"}) if a in model_attrs]) or any(helper_of(c) is not None and summary(helper_of(c))["writes"] for c in ast.walk(h.node))
+        exits, _ma = analyze(h.node.body, make_transfer(), frozenset(), may_raise, implicit="before")
+        normal = [f for k, _n, f in exits if k in ("return", "fall")]
+        ends_clean = bool(normal) and all("clean" in f for f in normal)
+        _stack.pop()
+        summaries[h.qual] = {"writes": writes, "ends_clean": ends_clean}
+        return summaries[h.qual]
+
+    mutators = []
+    for m in P.methods.values():
+        decos = [ast.unparse(d) for d in m.node.decorator_list]
+        if m is init or m is inval or m.name.startswith("_") or "property" in decos:
+            continue
+        direct = [(a, n) for a, n in attr_writes(m.node, {"self"}) if a in model_attrs]
+        via = [c for c in ast.walk(m.node) if helper_of(c) is not None and summary(helper_of(c))["writes"]]
+        if direct or via:
+            mutators.append((m, direct, via))
+    rep.saw("mutators", [m.qual for m, _d, _v in mutators])
+    rep.saw("private helpers that edit the model", sorted(q for q, sm in summaries.items() if sm["writes"]))
+
+    for m, ws, via in mutators:
+        exits, ma = analyze(m.node.body, make_transfer(), frozenset({"clean"}), may_raise, implicit="before")
         bad_normal = [(k, n) for k, n, f in exits if k in ("return", "fall") and "clean" not in f]
-        bad_raise = []
-        for k, n, f in exits:
-            if k in ("raise", "implicit-raise") and "clean" not in f:
-                bad_raise.append((k, n))
+        bad_raise = [(k, n) for k, n, f in exits if k in ("raise", "implicit-raise") and "clean" not in f]
+        what = sorted({a for a, _ in ws}) or [f"via {helper_of(via[0]).name}()"]
         rep.ob(
             "R13.1", m.qual.split(":")[1], not bad_normal,
-            ("every normal exit is preceded by the invalidator after the last write to "
-             + ", ".join(sorted({a for a, _ in ws})))
+            f"every normal exit is preceded by the invalidator after the last write to {', '.join(what)}"
             if not bad_normal else
-            f"writes {sorted({a for a, _ in ws})} but a normal exit (line {bad_normal[0][1].lineno if bad_normal[0][1] is not None else '?'}) "
-            f"is reached without calling {inval_name}() afterwards: caches keep describing the old model",
+            f"edits the model ({', '.join(what)}) but a normal exit (line {bad_normal[0][1].lineno if bad_normal[0][1] is not None else '?'}) "
+            f"is reached without {inval_name}() having run afterwards on every path: caches keep describing the old model",
             loc=m.loc, detail="normal-exit",
         )
         rep.ob(
